@@ -587,6 +587,35 @@ DeepRec(r, di) ==
       probe |-> Probe([d |-> d, g |-> 1, p |-> 1])]
 
 -----------------------------------------------------------------------------
+(* MODE "forms": every special form / binding construct applied to every tuple of OPERAND SHAPES   *)
+(* (well-formed and malformed alike).  The contract: Eval(G, unit) is ok or err - within the time  *)
+(* limit, so a parser / expander that does not terminate is a violation - and G is unchanged when  *)
+(* it is err.  (The unit may also be accepted: e.g. (begin) or (let () 1); a definition it makes   *)
+(* uses names the probe does not look at.)                                                         *)
+FormHeads == <<"define", "lambda", "let", "let*", "letrec", "letrec*", "if", "set!", "begin", "quote", "quasiquote",
+               "unquote", "unquote-splicing", "define-syntax", "syntax-rules", "let-syntax", "cond", "case", "when", "unless",
+               "and", "or", "do", "struct", "define-struct", "require", "provide", "define-values", "let-values", "call/cc",
+               "with-handler", "parameterize", "dynamic-wind", "delay", "case-lambda", "match", "define/contract", "lambda*",
+               "let loop", "else", "=>", "...", "module", "begin-for-syntax", "defmacro", "syntax-case", "while", "for-each", "apply">>
+FormShapes == <<"()", "(())", "r07a@@", "1", "(r07a@@)", "((r07a@@))", "(r07a@@ 1)", "((r07a@@ 1))", "(() r07a@@)", "(r07a@@ . r07b@@)",
+                "((r07a@@ . r07b@@) 1)", "#:kw", "\"s\"", "(r07a@@ r07a@@)", "((r07a@@ 1) (r07a@@ 2))", "...", "[else]", "(r07a@@ ...)", "'()", "#t",
+                "((_ r07a@@) r07a@@)", "(())()", "(1 . 2)", "(quote)", "(1)">>
+\* a small set for the three-operand product
+FormShapes3 == {1, 3, 4, 5, 8, 9}
+NH == Len(FormHeads)
+NSH == Len(FormShapes)
+FormSrc(h, ops) == "(" \o Join(<<FormHeads[h]>> \o [i \in 1..Len(ops) |-> FormShapes[ops[i]]], " ") \o ")"
+\* Two units per form: `wrapped` puts it into the body of a procedure that is never called - it is parsed,
+\* expanded and compiled but does not run, so it must terminate (ok or err); `src` is the form as a whole
+\* top-level unit, which also runs: some accepted forms loop by design ((while 1), (let f () (f))), so
+\* there non-termination is a violation only if the wrapped unit does not terminate either.
+FormCase(h, ops) ==
+  LET d == ((h + Len(ops)) % 7) + 1
+  IN [k |-> "form", head |-> FormHeads[h], ops |-> [i \in 1..Len(ops) |-> FormShapes[ops[i]]], d |-> d,
+      src |-> FormSrc(h, ops), wrapped |-> "(define (r07w@@) " \o FormSrc(h, ops) \o ")",
+      probe |-> Probe([d |-> d, g |-> 1, p |-> 1])]
+
+-----------------------------------------------------------------------------
 (* The state machine                                                       *)
 
 Init == /\ phase = "start" /\ fi = 0 /\ ar = 0 /\ args = << >> /\ fam = "" /\ hist = << >> /\ G = G0
@@ -663,7 +692,18 @@ DeepPick ==
      \/ MAXD >= 4 /\ fi' = 0 /\ ar' = 40000 /\ fam' = "units"
   /\ phase' = "done" /\ UNCHANGED <<args, hist, G>>
 
-Next == MatrixPick \/ MatrixArg \/ StagePick \/ InterStart \/ InterClass \/ InterStep \/ DeepPick
+\* ---- forms
+FormPick ==
+  /\ MODE = "forms" /\ phase = "start"
+  /\ \E h \in 1..NH :
+       /\ fi' = h
+       /\ \/ args' = << >>
+          \/ \E a \in 1..NSH : args' = <<a>>
+          \/ \E a, b \in 1..NSH : args' = <<a, b>>
+          \/ \E a, b, c \in FormShapes3 : args' = <<a, b, c>>
+  /\ phase' = "done" /\ UNCHANGED <<ar, fam, hist, G>>
+
+Next == MatrixPick \/ MatrixArg \/ StagePick \/ InterStart \/ InterClass \/ InterStep \/ DeepPick \/ FormPick
 Spec == Init /\ [][Next]_vars
 
 -----------------------------------------------------------------------------
@@ -676,6 +716,7 @@ CaseOf ==
   IF MODE = "matrix" THEN MatrixCase(fi, args, fam)
   ELSE IF MODE = "stages" THEN (IF fam = "reenter" THEN ReenterCase(ar) ELSE StageCase(fi, ar))
   ELSE IF MODE = "inter" THEN [k |-> "inter", d |-> fi, hist |-> hist]
+  ELSE IF MODE = "forms" THEN FormCase(fi, args)
   ELSE IF fam = "text" THEN DeepText(Families[fi], ar)
   ELSE IF fam = "units" THEN ManyUnits(ar) ELSE DeepRec(Recursions[fi], ar)
 
